@@ -34,14 +34,14 @@ var histAssumptions = []string{
 func init() {
 	add(&Prop{ID: "C01", Level: "exploration", Shards: 16, RaceShards: 16, RaceQuick: true,
 		Technique:   "runtime monitoring: reference-client/reference-service convergence oracle at exact quiescence over generated histories with schedule perturbation; Go race detector attributed to the snapshot/version mechanism",
-		Rule:        "generated histories (1-4 connections of mixed protocol versions, 3-8 resources with references/cycles/soft refs/data values, seq and burst modes, answers in random/oldest/newest order incl. errors and timeouts, seeded perturbation); a history is non-trivial when at least one event frame was delivered and at least one (connection, resource) pair was compared with the service state; distinct = distinct interleaving signature (order of boundary events + frames + hook counter vector)",
+		Rule:        "generated histories (1-4 connections of mixed protocol versions, 3-8 resources with references/cycles/soft refs/data values, seq and burst modes, answers in random/oldest/newest order incl. errors and timeouts, seeded perturbation); a history is non-trivial when at least one event frame was delivered and at least one (connection, resource) pair was compared with the service state; distinct = distinct interleaving signature (order of boundary events + frames + hook counter vector); plus the sharedcoll family (collections shared by several connections, remove-heavy, burst: load-time snapshots must stay what they were), the query-resource cases of C13 that end in a convergence comparison (incl. an alias joining after events), and the directed regression scenarios",
 		Assumptions: histAssumptions, DesignRef: "DESIGN.md §4 C01",
 		Required:  []string{"sub.versionDiscard", "sub.queued"},
 		LevelText: "exploration: the real gateway is driven through thousands of generated, perturbed histories and at every quiescent point each client's protocol-derived copy of every retained resource is compared with the state the reference service announced; the race detector watches the snapshot/version hand-over. Decides the executions produced, not all schedules.",
 		LevelNote: "trusted base: SimBus fidelity, RefClient's reading of the client protocol, the quiescence protocol, the Go race detector"})
 	add(&Prop{ID: "C02", Level: "exploration", Shards: 16, RaceShards: 0,
 		Technique:   "runtime monitoring: protocol-following reference client checks every frame for dangling references and stray/inapplicable events over reference-graph histories",
-		Rule:        "generated histories biased to subscribe/unsubscribe and reference-changing events over small resource sets with dense reference graphs (shared children, cycles, self references, error children); non-trivial when event frames were delivered and resources compared; distinct by interleaving signature",
+		Rule:        "generated histories biased to subscribe/unsubscribe and reference-changing events over small resource sets with dense reference graphs (shared children, cycles, self references, error children); non-trivial when event frames were delivered and resources compared; distinct by interleaving signature; at every quiescent point the reference counters of every subscription of every connection (indirect, indirectsent from the hook snapshot) are compared with the reference graph of that connection, and a subscription in state sent must have a direct subscription or a sent parent; directed regression scenarios",
 		Assumptions: histAssumptions, DesignRef: "DESIGN.md §4 C02",
 		Required:  []string{"gc.delete"},
 		LevelText: "exploration: every frame of every generated history is applied by the reference client, which reports a reference without data, an event for a resource it does not hold, a change on a collection / add,remove on a model and out-of-range indexes at the frame where it happens",
@@ -54,7 +54,7 @@ func init() {
 		LevelNote: "trusted base: exact quiescence protocol, SimBus"})
 	add(&Prop{ID: "C08", Level: "exploration", Shards: 16,
 		Technique:   "runtime monitoring: counter model of direct subscriptions vs. unsubscribe outcomes and vs. hooked per-connection state at quiescent points",
-		Rule:        "seq-mode histories dominated by subscribe/unsubscribe(count)/get/call-with-resource on few resources with failing gets; every unsubscribe outcome is compared with the counter model and the gateway's per-connection direct counts (hook) with the protocol accounting; non-trivial when event frames were delivered and resources compared; distinct by interleaving signature",
+		Rule:        "seq-mode histories dominated by subscribe/unsubscribe(count)/get/call-with-resource on few resources with failing gets; every unsubscribe outcome is compared with the counter model and the gateway's per-connection direct counts (hook) with the protocol accounting; non-trivial when event frames were delivered and resources compared; distinct by interleaving signature; plus the limit family (255/256 direct subscriptions on one resource, then further subscribe/get/resource-response requests, unsubscribe above the granted count, release)",
 		Assumptions: histAssumptions, DesignRef: "DESIGN.md §4 C08",
 		LevelText: "exploration: predictions of the counter model are asserted for every unsubscribe issued without an overlapping request on the same resource; the hooked direct counts and leftover subscriptions are checked at every quiescent point",
 		LevelNote: "trusted base: VerifConns hook snapshot taken on the connection's own worker, RefClient accounting"})
@@ -63,21 +63,21 @@ func init() {
 func init() {
 	add(&Prop{ID: "C12", Level: "exploration", Shards: 16,
 		Technique:   "runtime monitoring: differential oracle over enumerated inputs of the exported pattern matcher and the hook-exported reset/diff pipeline (events applied to the old state must give the new state), plus reset histories against the real gateway",
-		Rule:        "layer 1: every pattern over {a,b,.,*,>} x every name over {a,b,.} up to the stated length (exhaustive) plus random longer ones with other bytes, compared with an independent token-wise NATS matcher (no panic on any input); layer 2: every pair of collections over a 3-symbol alphabet up to the stated length and every pair of models over 3 keys x 6 value kinds (exhaustive) plus random longer collections with duplicates and mixed value kinds, run through the real reset pipeline and replayed on the old state; layer 3: generated histories with silent mutations + system.reset; non-trivial = valid wildcard pattern x valid name, differing old/new pair, history with delivered events; distinct = disjoint enumeration indices / interleaving signatures",
+		Rule:        "layer 1: every pattern over {a,b,.,*,>} x every name over {a,b,.} up to the stated length (exhaustive) plus random longer ones with other bytes, compared with an independent token-wise NATS matcher (no panic on any input); layer 2: every pair of collections over a 3-symbol alphabet up to the stated length and every pair of models over 3 keys x 6 value kinds (exhaustive) plus random longer collections with duplicates and mixed value kinds, run through the real reset pipeline and replayed on the old state; layer 3: generated histories with silent mutations + system.reset; non-trivial = valid wildcard pattern x valid name, differing old/new pair, history with delivered events; distinct = disjoint enumeration indices / interleaving signatures; re-fetch outcomes include transport-level failures (timeout, no responders) followed by a second reset (recovery)",
 		Assumptions: []string{"the reference matcher implements NATS subject wildcard semantics as the property states them", "VerifCollectionReset/VerifModelReset run the unmodified processReset*/handleEvent* code on a stand-alone cache entry"},
 		DesignRef:   "DESIGN.md §4 C12",
 		LevelText:   "exploration with exhaustive enumeration of the stated small input spaces: the matcher and the diff pipeline are decided completely for those spaces, sampled beyond; the system layer checks the re-fetch set and convergence on generated histories",
 		LevelNote:   "trusted base: reference matcher, event replay code in the harness, hook wrappers"})
 	add(&Prop{ID: "C05", Level: "exploration", Shards: 16,
 		Technique:   "runtime monitoring: differential oracle over enumerated call lists x methods against the exported Access.CanCall, plus boundary-log checker of call/auth/access requests in generated histories",
-		Rule:        "layer 1: every call list over {a,b,',','*'} up to the stated length x 9 methods (exhaustive), reference = '*' or exact comma-separated entry; non-trivial = the method occurs inside the list string without being equal to it; layer 2: histories with call/auth/new over WebSocket and HTTP with token changes",
+		Rule:        "layer 1: every call list over {a,b,',','*'} up to the stated length x 9 methods (exhaustive), reference = '*' or exact comma-separated entry; non-trivial = the method occurs inside the list string without being equal to it; layer 2: histories with call/auth/new over WebSocket and HTTP with token changes; tokenrace cases (token events while the access request of a call/new is outstanding; admissible tokens judged at partial quiescent points)",
 		Assumptions: []string{"method names never contain ',' or '*' (enforced by request validation, C14)"},
 		DesignRef:   "DESIGN.md §4 C05",
 		LevelText:   "exploration with exhaustive enumeration of the stated call-list space, plus monitored histories for gating and token currency",
 		LevelNote:   "trusted base: reference matcher (strings.Split + equality), SimBus request log"})
 	add(&Prop{ID: "C17", Level: "exploration", Shards: 16,
 		Technique:   "runtime monitoring: differential oracle over generated origins x allow-lists (byte-wise reference), enumerated error-code table, and HTTP/WebSocket monitors for meta status/header handling",
-		Rule:        "origins and allow-lists built from hostile atoms (case variants, ports, prefixes/suffixes, non-ASCII, invalid UTF-8, U+FFFD, Kelvin sign) compared with a byte-wise ASCII-case-insensitive reference; every predefined and 2000 random error codes against the fixed status table; non-trivial = origin differs from the allowed entry; distinct = distinct (list, origin) pairs",
+		Rule:        "origins and allow-lists built from hostile atoms (case variants, ports, prefixes/suffixes, non-ASCII, invalid UTF-8, U+FFFD, Kelvin sign) compared with a byte-wise ASCII-case-insensitive reference; every predefined and 2000 random error codes against the fixed status table; non-trivial = origin differs from the allowed entry; distinct = distinct (list, origin) pairs; allow-lists of several related origins of equal length with Origin headers spliced from two entries",
 		Assumptions: []string{"allow-list entries are lower-cased by configuration as the code does"},
 		DesignRef:   "DESIGN.md §4 C17",
 		LevelText:   "exploration: generated inputs against independent references; tables enumerated completely",
@@ -94,7 +94,7 @@ func init() {
 		LevelNote: "trusted base: world event numbering, happens-before by the single logical clock, RefClient holding intervals"})
 	add(&Prop{ID: "C09", Level: "exploration", Shards: 16, RaceShards: 16,
 		Technique:   "runtime monitoring: boundary-log checker (get only under a live event subscription), structural invariants of hooked cache state at quiescent points, end-state emptiness incl. /metrics gauges after the logical eviction wait; race detector attributed to count/eviction code",
-		Rule:        "lifecycle histories: subscribe/unsubscribe/disconnect from 1-6 connections with get errors, delete events, calls in flight, eviction delays 0/1/5 ms and perturbation at the eviction callback; count == subscribers at every quiescent point, no entry/subscription/gauge left at the end; non-trivial when event frames were delivered and resources compared; distinct by interleaving signature",
+		Rule:        "lifecycle histories: subscribe/unsubscribe/disconnect from 1-6 connections with get errors, delete events, calls in flight, eviction delays 0/1/5 ms and perturbation at the eviction callback; count == subscribers at every quiescent point, no entry/subscription/gauge left at the end; non-trivial when event frames were delivered and resources compared; distinct by interleaving signature; plus the longname family (resource names around the length at which event.<name> no longer fits the control line)",
 		Assumptions: histAssumptions, DesignRef: "DESIGN.md §4 C09", Required: []string{"cache.evicted", "cache.evictAbort"},
 		LevelText: "exploration: the cache's bookkeeping is compared with the connections' subscriptions at every quiescent point and must be empty at the end of every history",
 		LevelNote: "trusted base: VerifSnapshot/VerifConns hooks, eviction accounting hook, SimBus subscription log"})
@@ -107,7 +107,7 @@ func init() {
 		LevelNote:   "trusted base: cid learned from the conn.<cid> subscription at connect time"})
 	add(&Prop{ID: "C11", Level: "fault_enumeration", Shards: 16, RaceShards: 16,
 		Technique:   "runtime monitoring with fault injection: disconnects injected at random and at every step of generated histories with requests outstanding; hooked connection/cache state and the boundary log checked at the quiescent point after each disconnect",
-		Rule:        "burst histories with 2-5 connections where connections are torn down with requests unanswered and late answers released afterwards, plus a sweep injecting the disconnect at every step index of base histories; after the disconnect: connection gone, conn.<cid> unsubscribed, cache uses released (count == subscribers), no later request carrying the cid; non-trivial when event frames were delivered and resources compared; distinct by interleaving signature",
+		Rule:        "burst histories with 2-5 connections where connections are torn down with requests unanswered and late answers released afterwards, plus a sweep injecting the disconnect at every step index of base histories; after the disconnect: connection gone, conn.<cid> unsubscribed, cache uses released (count == subscribers), no later request carrying the cid; non-trivial when event frames were delivered and resources compared; distinct by interleaving signature; plus the HTTP family (request aborted by its client, or an access re-check trigger arriving, after every number of answered service requests x late-answer order x header auth with/without token id: temporary connection, conn subscription, token-reset fan-out, cache uses all released) and the bus-level monitor 'request for a connection no longer registered'",
 		Assumptions: histAssumptions, DesignRef: "DESIGN.md §4 C11", Required: []string{"sub.loadedAfterClose"},
 		LevelText: "fault enumeration over disconnect positions: every step index of the base histories is a disconnect point; the cleanup obligations are checked at the exact quiescent point following it",
 		LevelNote: "trusted base: onWSClose callback marks completion of the gateway's dispose; hooks"})
@@ -153,7 +153,7 @@ func init() {
 func init() {
 	add(&Prop{ID: "C19", Level: "exploration", Shards: 16, RaceShards: 8,
 		Technique:   "runtime monitoring: invariant monitor (active <= limit, every callback runs) and porcupine linearizability check of recorded Add/Done histories of the exported Throttle against a sequential model; boundary monitor counting outstanding governed requests at every SendRequest under adversarial answer orders; race detector attributed to Throttle",
-		Rule:        "direct: 2-8 goroutines x 1-5 Add each on throttles of limit 1-4, callbacks completing on other goroutines with seeded delays, each history (<= 60 operations) checked by porcupine (10 s timeout = inconclusive count); system: {reference throttle, reset throttle with resources, with resources+access, with busy subscriptions} x limit {0,1,2,3,8} x fan-out {1,2,3,5,9,14} x answer order {oldest, newest, random} x {1,3} connections with shared/cyclic children; outstanding governed requests <= N at every request, complete fan-out at quiescence, nothing delayed for N=0; distinct = parameter tuple / enumeration index, all non-trivial",
+		Rule:        "direct: 2-8 goroutines x 1-5 Add each on throttles of limit 1-4, callbacks completing on other goroutines with seeded delays, each history (<= 60 operations) checked by porcupine (10 s timeout = inconclusive count); system: {reference throttle, reset throttle with resources, with resources+access, with busy subscriptions} x limit {0,1,2,3,8} x fan-out {1,2,3,5,9,14} x answer order {oldest, newest, random} x {1,3} connections with shared/cyclic children; outstanding governed requests <= N at every request, complete fan-out at quiescence, nothing delayed for N=0; distinct = parameter tuple / enumeration index, all non-trivial; resetbusyreaccess: re-checks deferred by busy subscriptions, plain reaccess events before release",
 		Assumptions: []string{"which waiter a Done released is not observable at its return (the hand-over is a go statement); the porcupine model therefore decides admission (inline vs queued), the invariants cover the hand-over", "per-throttle attribution is not visible at the boundary: one reset / one subscription is in progress at a time in the bound checks"},
 		DesignRef:   "DESIGN.md §4 C19",
 		LevelText:   "exploration: thousands of short concurrent Add/Done histories checked for linearizability and invariants, plus an enumerated grid of system-level topologies with the bound asserted at every SendRequest",
@@ -163,7 +163,7 @@ func init() {
 func init() {
 	add(&Prop{ID: "C13", Level: "fault_enumeration", Shards: 16, RaceShards: 8,
 		Technique:   "runtime monitoring with fault enumeration: scripted query-resource scenarios against a reference query service (own normalisation, window derivation and diff), hooked cache state for sharing/links, boundary log for the query-request set and the lock window, generic convergence monitors",
-		Rule:        "enumeration of raw-query sets {single, two distinct, two aliases, alias + its normalised form (both orders), two aliases + distinct} x {sequential, all gets in flight} x every get answer order x every outcome per query request {events, collection, error, notFound, timeout} x every query answer order x intrusion inside the lock window {none, new subscribe, second query event} x 3 dataset mutations; checked: one cache entry per normalised query with links, exactly one query request per cached normalised query on the event's subject, nothing of the resource handled while a request of the round is unanswered, resumption afterwards, delete on notFound for that query only, events under the client's own rid, a probe query event afterwards, convergence (C01 monitor); every case distinct and non-trivial by construction",
+		Rule:        "enumeration of raw-query sets {single, two distinct, two aliases, alias + its normalised form (both orders), two aliases + distinct} x {sequential, all gets in flight} x every get answer order x every outcome per query request {events, collection, error, notFound, timeout} x every query answer order x intrusion inside the lock window {none, new subscribe, second query event} x 3 dataset mutations; checked: one cache entry per normalised query with links, exactly one query request per cached normalised query on the event's subject, nothing of the resource handled while a request of the round is unanswered, resumption afterwards, delete on notFound for that query only, events under the client's own rid, a probe query event afterwards, convergence (C01 monitor); every case distinct and non-trivial by construction; every case ends with an alias joining after events, a probe at the front of the dataset, and a release/re-subscribe phase (cache forgets the query resource and its aliases: no link to an unregistered resource, a get for every re-subscribed query)",
 		Assumptions: []string{"the reference query service follows the RES service protocol: a query event's subject remembers (before, after); answers are derived for the normalised query asked", "queries answered with error/timeout are excluded from convergence until re-fetched"},
 		DesignRef:   "DESIGN.md §4 C13", Required: []string{"query.link", "query.lock", "query.unlock", "query.skipRequested", "query.handover"},
 		LevelText: "fault enumeration over outcomes and orders of the get and query requests of small query sets, executed completely in the thorough tier",
@@ -173,7 +173,7 @@ func init() {
 func init() {
 	add(&Prop{ID: "C20", Level: "fault_enumeration", Shards: 16, RaceShards: 8, CrashIsViol: true,
 		Technique:   "runtime monitoring with fault injection: Stop / loss of the messaging system injected at every step of setups with idle connections, outstanding requests, HTTP requests, a connection in the header-auth phase and pending evictions; client sockets, admission of new requests (also while the messaging client is still closing), the stop channel and restart are observed; a crash of the worker process is itself a violation",
-		Rule:        "enumeration of {idle, outstanding, mixed, http, upgrade (registered connection without socket), pending eviction} x {Service.Stop(nil), closed handler with an error} x {messaging client closes at once, closes slowly with WebSocket and HTTP probes sent while stopping} x answer progress 0..6, each for up to three Start/Stop cycles on the same Service; required: Stop returns before the 25 s watchdog, every client socket closed, new WebSocket refused and HTTP answered 503 during and after stopping, the stop channel delivers exactly the injected cause, Start works again; every case is non-trivial and distinct by construction",
+		Rule:        "enumeration of {idle, outstanding, mixed, http, upgrade (registered connection without socket), pending eviction} x {Service.Stop(nil), closed handler with an error} x {messaging client closes at once, closes slowly with WebSocket and HTTP probes sent while stopping} x answer progress 0..6, each for up to three Start/Stop cycles on the same Service; required: Stop returns before the 25 s watchdog, every client socket closed, new WebSocket refused and HTTP answered 503 during and after stopping, the stop channel delivers exactly the injected cause, Start works again; every case is non-trivial and distinct by construction; after every restart the cache snapshot must be empty, the first subscribe needs a get, an event subscription and the service's current data",
 		Assumptions: []string{"like the real adapter, SimBus never invokes a completion after Close has returned", "a WebSocket upgrade stuck in header authentication when the messaging system goes away cannot complete; it is tolerated as long as it serves nothing"},
 		DesignRef:   "DESIGN.md §4 C20",
 		LevelText:   "fault enumeration over fault kind, position and shutdown speed; crash freedom is observed per worker process",
@@ -193,7 +193,7 @@ func init() {
 func init() {
 	add(&Prop{ID: "C15", Level: "exploration", Shards: 16, CrashIsViol: true,
 		Technique:   "runtime monitoring with fuzzing: corpus and mutation based hostile messages of every kind injected into a running gateway with subscribed clients, one worker process per batch with a write-ahead log; monitors: process survival, exact quiescence and probe events (no stall), cache-vs-client agreement (all-or-nothing), cache unchanged and silence for clear-cut malformed messages",
-		Rule:        "hostile messages of 16 kinds (change/add/remove/custom/wrong-kind events, get/access/call/auth/query/reset re-fetch responses, query events, system.reset, system.tokenReset, conn token events, client frames, HTTP bodies) drawn from hand-written corpora of malformed payloads (wrong JSON types, boundary integers, negative/out-of-range indexes, ambiguous/unknown value objects, unwrapped nested values, invalid rids, truncated JSON, deep nesting, 100 kB keys) or produced by seeded mutation of valid payloads, injected into gateways with a model, a collection with a reference, a query collection and two clients (latest and 1.1.1); distinct = distinct (kind, payload); all non-trivial",
+		Rule:        "hostile messages of 16 kinds (change/add/remove/custom/wrong-kind events, get/access/call/auth/query/reset re-fetch responses, query events, system.reset, system.tokenReset, conn token events, client frames, HTTP bodies) drawn from hand-written corpora of malformed payloads (wrong JSON types, boundary integers, negative/out-of-range indexes, ambiguous/unknown value objects, unwrapped nested values, invalid rids, truncated JSON, deep nesting, 100 kB keys) or produced by seeded mutation of valid payloads, injected into gateways with a model, a collection with a reference, a query collection and two clients (latest and 1.1.1); distinct = distinct (kind, payload); all non-trivial; query collection responses with an inadmissible member next to other differences",
 		Assumptions: []string{"a crash is observed as the abnormal exit of the worker process (the gateway has no recover())", "whether a mutated message is valid is not decided by the harness; for those only 'cache and clients agree afterwards' is required; 'cache unchanged, nothing forwarded' is required for the corpus entries marked as clearly malformed"},
 		DesignRef:   "DESIGN.md §4 C15",
 		LevelText:   "exploration by corpus + mutation fuzzing against the running gateway with invariants checked after every message",
